@@ -149,7 +149,10 @@ func genFatCfg(r *core.Rng, tier string, t *core.Trace) {
 			size = core.PickOf[int64](r, 128<<20, 129<<20, 512<<20, 1<<30, 2<<30)
 		}
 	case 32:
-		switch r.PickW(55, 30, 10, 5) {
+		switch r.PickW(52, 28, 10, 5, 5) {
+		case 4:
+			// more than 65536 clusters on a volume small enough to be filled: cluster numbers beyond 16 bits
+			size = r.Range(34, 40) << 20
 		case 0:
 			size = r.Range(100, 1500) << 10
 		case 1:
